@@ -181,6 +181,62 @@ def closed_forms(state, stats, expected_probs):
     return noise_rule, probs_rule
 
 
+def mix_pre(state):
+    """Pre-step quantities the mixture rules of MixStep.tla are functions of: responsibilities, latent values, cluster means."""
+    try:
+        if "probs" not in state.dag or "nll_regul_ind_sum_ind" not in state.dag:
+            return None
+        ll = state["nll_regul_ind_sum_ind"]
+        ll = -(ll.value if hasattr(ll, "value") else ll).double()
+        if ll.dim() != 2:
+            return None
+        pre = {"r": torch.softmax(ll.clamp(min=-100.0), dim=1), "x": {}, "old": {}}
+        for ip in ("tau", "xi", "sources"):
+            if ip in state.dag and f"{ip}_mean" in state.dag:
+                pre["x"][ip] = state[ip].double().clone()
+                pre["old"][ip] = state[f"{ip}_mean"].double().clone()
+        return pre
+    except Exception:  # noqa: BLE001
+        return None
+
+
+def mix_rule(state, stats, pre, burn):
+    """MixStep.tla on a real mixture fit: cluster means = responsibility-weighted averages of the latent values, cluster
+    dispersions = mean squared deviation of the statistics from the pre-step cluster mean (sample std in the memory-less phase)."""
+    if pre is None:
+        return "na"
+    try:
+        r = pre["r"]
+        if not bool(torch.isfinite(r).all()):
+            return "na"
+        for ip, x in pre["x"].items():
+            if not bool(torch.isfinite(x).all()):
+                return "na"
+            got = state[f"{ip}_mean"].double()
+            if x.shape[1] == 1 and got.dim() == 1:
+                exp = (r * x).sum(dim=0) / r.sum(dim=0)
+            else:
+                exp = (x.unsqueeze(-1) * r.unsqueeze(1)).sum(dim=0) / r.sum(dim=0)
+            if got.shape != exp.shape or not bool(((got - exp).abs() <= 1e-4 * (1 + exp.abs())).all()):
+                return f"differs: {ip}_mean {got.reshape(-1).tolist()[:4]} vs responsibility-weighted mean {exp.reshape(-1).tolist()[:4]}"
+            if f"{ip}_std" in state.dag and state[f"{ip}_std"].dim() == 1 and state[f"{ip}_std"].numel() == r.shape[1] and x.shape[1] == 1:
+                gs = state[f"{ip}_std"].double()
+                if burn:
+                    es = x.std(dim=0).expand(r.shape[1])
+                else:
+                    v = (stats[ip].value if hasattr(stats[ip], "value") else stats[ip]).double()
+                    v2 = (stats[f"{ip}_sqr"].value if hasattr(stats[f"{ip}_sqr"], "value") else stats[f"{ip}_sqr"]).double()
+                    old = pre["old"][ip]
+                    es = (v2.mean(dim=0) - 2 * old * v.mean(dim=0) + old ** 2).clamp(min=0).sqrt().reshape(-1)
+                if not bool(torch.isfinite(es).all()):
+                    continue
+                if gs.shape != es.shape or not bool(((gs - es).abs() <= 1e-4 * (1 + es.abs())).all()):
+                    return f"differs: {ip}_std {gs.tolist()} vs dispersion rule {es.tolist()} (burn={burn})"
+        return "ok"
+    except Exception as e:  # noqa: BLE001
+        return f"not evaluable: {type(e).__name__}: {str(e)[:80]}"
+
+
 def pop_at_mode(model):
     st = model.state
     for name, var in st.dag.sorted_variables_by_type.get(PopulationLatentVariable, {}).items():
@@ -385,12 +441,14 @@ class _FitRecorder:
                         expected_probs = torch.softmax(ll.clamp(min=-100.0), dim=1).mean(dim=0)
             except Exception:  # noqa: BLE001
                 expected_probs = None
+            pre = mix_pre(state)
             try:
                 return orig_up(state, sufficient_statistics, burn_in=burn_in)
             finally:
                 ModelParameter.compute_update = o_cu
                 State.__setitem__ = o_set
                 rec.noise_rule, rec.probs_rule = closed_forms(state, sufficient_statistics, expected_probs)
+                rec.mix_rule = mix_rule(state, sufficient_statistics, pre, bool(burn_in))
         self._patch(model, "update_parameters", update_parameters)
 
         orig_max = algo._maximization_step
@@ -406,7 +464,8 @@ class _FitRecorder:
             memoryless, m, consistent = observe_combination(prev, rec.s_k, algo.sufficient_statistics, power)
             rec.events.append({"op": "Maximized", "k": k, "memoryless": memoryless, "m": m, "consistent": consistent,
                                "burn_flag": rec.burn_flag, "same_stats": rec.same_stats, "steps": rec.steps,
-                               "noise_rule": getattr(rec, "noise_rule", "na"), "probs_rule": getattr(rec, "probs_rule", "na")})
+                               "noise_rule": getattr(rec, "noise_rule", "na"), "probs_rule": getattr(rec, "probs_rule", "na"),
+                               "mix_rule": getattr(rec, "mix_rule", "na")})
         self._patch(algo, "_maximization_step", maximization_step)
 
         orig_temp = algo._update_temperature
@@ -500,6 +559,9 @@ def validate(events, vars_, params, outdir, tag, closed_forms=False):
         for e in events:
             f.write(json.dumps(e) + "\n")
     mod = f"TRS_{tag}"
+    # (no run got as far as declaring its variables - every fit raised at once: the trace is still judged, the runs' ends carry
+    #  the exceptions)
+    vars_, params = (vars_ or ["_none_"]), (params or ["_none_"])
     q = lambda xs: "{" + ", ".join(f'"{x}"' for x in xs) + "}"   # noqa: E731
     with open(os.path.join(outdir, mod + ".tla"), "w") as f:
         f.write(f"---- MODULE {mod} ----\nEXTENDS SaemTrace\nTrVarSeq == <<{', '.join(chr(34) + v + chr(34) for v in sorted(vars_))}>>\n====\n")
